@@ -132,6 +132,15 @@ reg("C07", "libFuzzer (ASan+UBSan) on tar iterator/fstree and the pack/sort/xatt
     "Terminates; no sanitizer report; exit 0 => image satisfies the C03 invariants and the predicted link groups; exit 1 => diagnostic, no output file.",
     "What a malformed sparse map delivers is unspecified and not judged; hang detection is a 30 s limit.", "DESIGN.md 4/C07")
 
+reg("C06", "Hypothesis hostile images (independent writer) -> rdsquashfs --unpack-path as root in a jail with sentinels", "exploration",
+    "generated adversarial images + before/after snapshot invariant over everything outside the unpack root",
+    "Images whose directory tables carry arbitrary byte strings ('.', '..', 'a/b', '/abs', '../x', NUL, long names), duplicate names pairing a "
+    "symlink with a directory or file, unsorted listings and symlinks aimed at sentinels are unpacked by rdsquashfs (ASan, as root) with every "
+    "option subset, unpack path and unpack-root style inside a jail; a snapshot (type, mode, owner, inode, links, mtime, size, content, target, "
+    "xattrs, listings) of the jail minus R must be unchanged; on exit 0 the sane unique entries must exist with the right type.",
+    "Trusts lib/sqfswrite.py; the jail stands in for 'the rest of the file system' (symlink targets point at it absolutely and relatively).",
+    "DESIGN.md 4/C06")
+
 NOT_YET = {}
 
 ALL = ["C%02d" % i for i in range(1, 20)]
